@@ -1,6 +1,7 @@
 import WfModel.MigrateShipped
 import WfProofs.Migrate
 import WfProofs.MigrateLoader
+import WfProofs.MigrateConn
 /-!
 C28 — SQLite schema migrations converge from any earlier schema.
 
@@ -88,6 +89,37 @@ theorem run_final {ms : List Migration} (hwf : WellFormed ms) {db : Db} (hr : Re
   | mk sm rows schema uv =>
     simp only at hsm hk hrows
     simp [finalDb, hsm, hk, hrows]
+
+theorem run_final_inv {ms : List Migration} (hwf : WellFormed ms) {d : Db} {a : List Migration}
+    (hinv : InvAt ms a d) :
+    ∃ (k : Nat) (full : Schema), d.userVersion = (k : Int) ∧ foldMigs [] ms = some full ∧
+      runOn ms d = .ok (finalDb ms full k) := by
+  obtain ⟨db', a', hrun, hinv', huv', ha'⟩ := hinv.step hwf ms (List.prefix_refl ms)
+  have hpa : a <+: ms := by
+    obtain ⟨_, _, b, _, hms, _⟩ := hinv
+    exact ⟨b, hms.symm⟩
+  have := ha' hpa
+  subst this
+  have hsm0 := hinv.1
+  obtain ⟨hsm, k, b, hk, hms, hfold, _, hrows⟩ := hinv'
+  refine ⟨k, db'.schema, by rw [← huv', hk], hfold, ?_⟩
+  unfold runOn
+  rw [bootstrap_of_hasSM hsm0, hrun]
+  cases db' with
+  | mk sm rows schema uv =>
+    simp only at hsm hk hrows
+    simp [finalDb, hsm, hk, hrows]
+
+/-- the write calls of `run_migrations(conn)` (server package, list `ms`) on a new connection to `db` -/
+def runOnT (ms : List Migration) (db : Db) : List Conn × Option String :=
+  runLoadedT [(bootstrapPkg, ms)] (Conn.connect db)
+
+theorem mem_runSourcesT_single {p : String} {ms : List Migration} {c c' : Conn}
+    (h : c' ∈ (runSourcesT [(p, ms)] c).1) : c' ∈ (runFilesT p ms (appliedOf p c.cur.rows) c).1 := by
+  simp only [runSourcesT] at h
+  split at h
+  · exact h
+  · simpa using h
 
 theorem final_rows_lt (ms : List Migration) (hwf : WellFormed ms) (k : Nat) :
     (List.range' 1 k ++ versions (above k ms)).Pairwise (· < ·) := by
@@ -209,6 +241,70 @@ example : shippedFiles.reverse.Perm shippedFiles ∧
     (shippedFiles.map (·.name)).Nodup ∧ shippedFiles.reverse.map (·.name) ≠ shippedFiles.map (·.name) :=
   ⟨List.reverse_perm _, by decide +kernel, by decide +kernel⟩
 
+/-! ## what is durable: process starts that close without commit, killed runs -/
+
+/-- **Nothing is left to the caller.**  A process start the way `DBOSRuntime.run_migrations` does it —
+connect, `run_migrations`, close, no commit by the caller — leaves in the *file* exactly what the
+running connection saw, with no transaction open at close; for any sources and any database, failed
+runs included. -/
+theorem C28_close_without_commit (sources : List (String × List File)) (db : Db) :
+    session sources db = (runMigrations sources db, false) := by
+  simp [session, runMigrations, sessionLoaded_eq]
+
+/-- **C28 on the re-opened file.**  From every start state a process start that commits nothing itself
+succeeds; the file then has the one final schema and every version recorded once; the next process
+start changes nothing. -/
+theorem C28_restart_converges (ms : List Migration) (hwf : WellFormed ms) (db : Db) (hr : Reach ms db) :
+    ∃ db', sessionLoaded [(bootstrapPkg, ms)] db = (.ok db', false) ∧ foldMigs [] ms = some db'.schema ∧
+      (∀ m ∈ ms, db'.rows.count (bootstrapPkg, m.version) = 1) ∧
+      sessionLoaded [(bootstrapPkg, ms)] db' = (.ok db', false) := by
+  obtain ⟨db', hrun, hfull, hsm, _⟩ := C28_converges ms hwf db hr
+  have hrun' : runSources [(bootstrapPkg, ms)] (bootstrap db) = .ok db' := hrun
+  refine ⟨db', by rw [sessionLoaded_eq, hrun'], hfull, C28_each_version_once ms hwf db db' hr hrun, ?_⟩
+  rw [sessionLoaded_eq, bootstrap_of_hasSM hsm]
+  have := runSources_noop_of_rows _ _ _ hrun' db' (fun _ h => h)
+  rw [this]
+
+/-- **Every file a killed run can leave** (the process dies before any write call of the run; `durable`
+is what the file then holds): either the start was a legacy database being seeded and the file is the
+start plus an *empty* `schema_migrations` table (between the autocommitted `CREATE TABLE` and the commit
+of the seed rows), or the file satisfies the invariant of the start states. -/
+theorem C28_kill_points (ms : List Migration) (hwf : WellFormed ms) (db : Db) (hr : Reach ms db) :
+    ∀ c ∈ (runOnT ms db).1,
+      (db.hasSM = false ∧ 0 < db.userVersion ∧ c.durable = seedWindow db) ∨
+      ∃ a, InvAt ms a c.durable ∧ c.durable.userVersion = db.userVersion := by
+  intro c hc
+  obtain ⟨a, hinv, huv⟩ := reach_inv hwf hr
+  obtain ⟨b1, b2, b3⟩ := bootstrapT_spec (Conn.connect db) (Conn.clean_connect db)
+  simp only [runOnT, runLoadedT, List.mem_append] at hc
+  rcases hc with hc | hc
+  · rcases b3 c hc with h | h
+    · exact .inl h
+    · exact .inr ⟨a, by rw [h]; exact hinv, by rw [h]; exact huv⟩
+  · have hc' := mem_runSourcesT_single hc
+    have hcur : (lastOf (Conn.connect db) (bootstrapT (Conn.connect db))).cur = bootstrap db := b2
+    obtain ⟨a', h1, h2⟩ := runFilesT_inv hwf ms [] a _ _ (by simp) (List.nil_prefix) (by rw [hcur]; exact hinv) b1
+      (fun v => mem_appliedOf) c hc'
+    exact .inr ⟨a', h1, by rw [h2, hcur, huv]⟩
+
+/-- … and from every such file except the seed window a restarted run ends exactly where an
+undisturbed run from the start state ends. -/
+theorem C28_killed_run_recovers (ms : List Migration) (hwf : WellFormed ms) (db : Db) (hr : Reach ms db) :
+    ∀ c ∈ (runOnT ms db).1,
+      (db.hasSM = false ∧ 0 < db.userVersion ∧ c.durable = seedWindow db) ∨
+      runOn ms c.durable = runOn ms db := by
+  intro c hc
+  rcases C28_kill_points ms hwf db hr c hc with h | ⟨a, hinv, huv⟩
+  · exact .inl h
+  · refine .inr ?_
+    obtain ⟨k, full, hk, hfull, hrun⟩ := run_final_inv hwf hinv
+    obtain ⟨k', full', hk', hfull', hrun'⟩ := run_final hwf hr
+    have e1 : full = full' := Option.some.inj (hfull.symm.trans hfull')
+    have e2 : k = k' := by
+      have : (k : Int) = (k' : Int) := by rw [← hk, ← hk', huv]
+      omega
+    rw [hrun, hrun', e1, e2]
+
 /-! ## the shipped table -/
 
 /-- today's migration list: the model of the loader applied to the regenerated directory listing -/
@@ -227,7 +323,7 @@ theorem C28_source_shape :
     Gen.Migrate.versionOrZero = true ∧ Gen.Migrate.skipIfApplied = true ∧ Gen.Migrate.skipIfZero = true ∧
     Gen.Migrate.appliedQueryFiltersPackage = true ∧ Gen.Migrate.scriptPrefix = "BEGIN;\n" ∧
     Gen.Migrate.applyThenRecord = true ∧ Gen.Migrate.rollbackOnError = true ∧ Gen.Migrate.reraises = true ∧
-    Gen.Migrate.appliedUpdated = true := by decide
+    Gen.Migrate.appliedUpdated = true ∧ Gen.Migrate.seedsCommitted = true := by decide
 
 /-- The hypotheses of the generic theorems hold of the shipped files: versions (as the loader parses
 them) positive and strictly increasing in file-name order, all scripts apply in order to an empty schema. -/
@@ -264,6 +360,18 @@ theorem C28_shipped_same_final_state (db : Db) (hr : Reach shipped db) (hk : db.
       .ok { hasSM := true, rows := rowsOf bootstrapPkg shipped, schema := full, userVersion := db.userVersion } := by
   rw [run_shipped]
   exact C28_same_final_state shipped C28_shipped_table.1 C28_shipped_contiguous.2 db hr hk
+
+/-- **C28 for the code as shipped, on the re-opened file**: process starts that commit nothing themselves. -/
+theorem C28_shipped_restart_converges (db : Db) (hr : Reach shipped db) :
+    ∃ db', session shippedSources db = (.ok db', false) ∧ foldMigs [] shipped = some db'.schema ∧
+      (∀ m ∈ shipped, db'.rows.count (bootstrapPkg, m.version) = 1) ∧
+      session shippedSources db' = (.ok db', false) := by
+  have hs : ∀ d, session shippedSources d = sessionLoaded [(bootstrapPkg, shipped)] d := by
+    intro d
+    have : Gen.Migrate.defaultPackage = bootstrapPkg := by decide
+    simp [session, shippedSources, shipped, this]
+  obtain ⟨db', h1, h2, h3, h4⟩ := C28_restart_converges shipped C28_shipped_table.1 db hr
+  exact ⟨db', by rw [hs, h1], h2, h3, by rw [hs, h4]⟩
 
 /-! ## non-vacuity -/
 
@@ -318,4 +426,22 @@ example : (match runMigrations
     | .ok db' => db'.rows == [("server", 1), ("dbos", 1)]
     | .failed .. => false) = true := by decide +kernel
 
+-- the kill points are there: a run on the legacy database at user_version = 2 makes write calls, some of which
+-- leave the start state, some the final state
+example : (runOnT shipped (legacyDb 2)).1.length > 6 ∧ (runOnT shipped (legacyDb 2)).2 = none ∧
+    (runOnT shipped (legacyDb 2)).1.any (fun c => c.durable == legacyDb 2) = false ∧
+    (runOnT shipped (legacyDb 2)).1.any (fun c => some c.durable.schema == foldMigs [] shipped) = true := by
+  refine ⟨?_, ?_, ?_, ?_⟩ <;> decide +kernel
+
 end C28
+
+
+/-- The exception in `C28_kill_points` is real for the shipped list (an observation outside the property's
+quantifier, which does not speak of killed runs): the legacy database at `user_version = 2` passes through
+the seed window, and from that file the next run fails. -/
+theorem C28_seed_window_witness :
+    (C28.runOnT C28.shipped (C28.legacyDb 2)).1.any (fun c => c.durable == seedWindow (C28.legacyDb 2)) = true ∧
+    (match runOn C28.shipped (seedWindow (C28.legacyDb 2)) with
+     | .failed .. => true
+     | .ok _ => false) = true := by
+  constructor <;> decide +kernel
